@@ -3,6 +3,7 @@ package props
 import (
 	"fmt"
 	"html/template"
+	"math"
 	"sort"
 	"strings"
 
@@ -387,6 +388,10 @@ func c08Iterables(r *core.Rng) []c08Iter {
 	its = append(its, mk("nil-literal", "nil", nil, nil))
 	its = append(its, mk("nil-from-missing-key", "msl[\"nokey\"]", nil, nil))
 	its = append(its, mk("nil-slice", "nilslice", nil, nil))
+	its = append(its, mk("nil-map", "nilmap", nil, nil))
+	its = append(its, mk("nil-pointer-to-slice", "npslice", nil, nil))
+	its = append(its, mk("nil-pointer-to-array", "nparr", nil, nil))
+	its = append(its, mk("nil-pointer-to-map", "npmap", nil, nil))
 	// maps
 	m1 := c08Iter{name: "map-string-int", expr: "msi3", isMap: true, vals: []string{"1", "2", "3"}, valSrc: []string{"1", "2", "3"}}
 	for i, k := range []string{"x", "y", "z"} {
@@ -395,8 +400,11 @@ func c08Iterables(r *core.Rng) []c08Iter {
 	m2 := c08Iter{name: "map-int-string", expr: "mis2", isMap: true, vals: []string{"one", "two"}, valSrc: []string{`"one"`, `"two"`}}
 	m2.elems = []lElem{{k: "1", v: "one"}, {k: "2", v: "two"}}
 	m0 := c08Iter{name: "map-empty", expr: "mempty", isMap: true}
-	its = append(its, m1, m2, m0)
-	for _, e := range []string{"5", `"str"`, "true", "strct", "fnval"} {
+	// a key that is not equal to itself is an entry like any other
+	m3 := c08Iter{name: "map-float-string-with-NaN-key", expr: "mnan", isMap: true, vals: []string{"x", "y"}, valSrc: []string{`"x"`, `"y"`}}
+	m3.elems = []lElem{{k: "NaN", v: "x"}, {k: "1.5", v: "y"}}
+	its = append(its, m1, m2, m0, m3)
+	for _, e := range []string{"5", `"str"`, "true", "strct", "fnval", "npstrct"} {
 		its = append(its, c08Iter{name: "non-iterable:" + e, expr: e, err: true})
 	}
 	return its
@@ -418,6 +426,12 @@ func c08Ctx() *plush.Context {
 	ctx.Set("citer", plush.Iterator(&countIter{max: 3}))
 	ctx.Set("msl", map[string][]string{})
 	ctx.Set("nilslice", []int(nil))
+	ctx.Set("nilmap", map[string]int(nil))
+	ctx.Set("npslice", (*[]int)(nil))
+	ctx.Set("nparr", (*[2]int)(nil))
+	ctx.Set("npmap", (*map[string]int)(nil))
+	ctx.Set("npstrct", (*T)(nil))
+	ctx.Set("mnan", map[float64]string{math.NaN(): "x", 1.5: "y"})
 	ctx.Set("msi3", map[string]int{"x": 1, "y": 2, "z": 3})
 	ctx.Set("mis2", map[int]string{1: "one", 2: "two"})
 	ctx.Set("mempty", map[string]int{})
@@ -663,7 +677,7 @@ func init() {
 	core.Register(&core.Prop{
 		ID:      "C08",
 		Level:   "exploration",
-		Rule:    "random loops: iterable from {[]int len 0-6, []string, []interface{}, array, *[]int, array literal, range/between/until, custom Iterator, nil, nil slice, map[string]int, map[int]string, empty map, 5 non-iterables} x (key,value)/(value) heads x bodies from a statement grammar (text, key, value, let, fn literal, if-guarded break/continue/return in 3 tag forms at any position, if blocks, inner loops in output/silent form with their own control statements, trailing return), printed multi-tag or single-tag; nesting depth <= 2. Oracle: a reference loop interpreter (one body evaluation per element in order; continue/break/return keep what the iteration produced); maps compared as multisets of bracketed iterations; control-free bodies additionally compared with the same body rendered element by element (unrolling). Non-trivial = every generated loop (distinct by template hash).",
+		Rule:    "random loops: iterable from {[]int len 0-6, []string, []interface{}, array, *[]int, array literal, range/between/until, custom Iterator, nil, nil slice, nil map, nil pointers to slice / array / map, map[string]int, map[int]string, map[float64]string with a NaN key, empty map, 6 non-iterables incl. a nil pointer to a struct} x (key,value)/(value) heads x bodies from a statement grammar (text, key, value, let, fn literal, if-guarded break/continue/return in 3 tag forms at any position, if blocks, inner loops in output/silent form with their own control statements, trailing return), printed multi-tag or single-tag; nesting depth <= 2. Oracle: a reference loop interpreter (one body evaluation per element in order; continue/break/return keep what the iteration produced); maps compared as multisets of bracketed iterations; control-free bodies additionally compared with the same body rendered element by element (unrolling). Non-trivial = every generated loop (distinct by template hash).",
 		Assume:  []string{"map bodies contain no break (visiting order is unspecified)", "text inside silent if blocks before a control statement is not generated (unspecified whether it is kept)"},
 		Batches: batchesQT(16, 64),
 		Run:     c08Run,
